@@ -53,6 +53,63 @@ def hetero_stacks(rnd, tier):
     return progs
 
 
+def mfopen_stacks(rnd, tier):
+    """C04: the multi-file open helpers pncmfopen / open_mfdataset: a file is
+    split into consecutive pieces along a dimension (also after reversing it,
+    so that its coordinate variable descends), every piece is written to disk
+    and the paths are opened as one file - in the order of the pieces and in
+    other orders (the result is the concatenation in ARGUMENT order)."""
+    dims = {'T1': {'t': 2, 'y': 2, 'x': 3}, 'T3': {'y': 3, 't': 2, 'x': 2},
+            'T5': {'time': 4, 'lev': 3}, 'T7': {'z': 3, 'x': 3},
+            'T2': {'t': 3}}
+
+    def sl(a, b, c=None):
+        return {'k': 'slice', 'h': [a is not None, b is not None,
+                                    c is not None],
+                'v': [x if x is not None else 0 for x in (a, b, c)]}
+    progs = []
+    for t in sorted(dims):
+        for d, n in sorted(dims[t].items()):
+            for rev in (False, True):
+                for via in ('pncmfopen', 'open_mfdataset'):
+                    steps = []
+                    base = 1
+                    if rev:
+                        steps.append({'act': 'slice', 'src': 1, 'others': [],
+                                      'args': {'sels': [{'d': d, 's': sl(
+                                          None, None, -1)}],
+                                          'newdim': 'POINTS'}})
+                        base = 2
+                    cuts = [0, 1, n] if n < 3 or rnd.random() < 0.5 \
+                        else [0, 1, 2, n]
+                    pieces = []
+                    for a, b in zip(cuts[:-1], cuts[1:]):
+                        steps.append({'act': 'slice', 'src': base,
+                                      'others': [], 'args': {
+                                          'sels': [{'d': d, 's': sl(a, b)}],
+                                          'newdim': 'POINTS'}})
+                        pieces.append(base + len(pieces) + 1)
+                    disk = []
+                    for pc in pieces:
+                        steps.append({'act': 'reopen', 'src': pc,
+                                      'others': [], 'args': {
+                                          'format': rnd.choice([
+                                              'NETCDF4_CLASSIC',
+                                              'NETCDF3_CLASSIC'])}})
+                        disk.append(pieces[-1] + len(disk) + 1)
+                    orders = [disk, disk[::-1]]
+                    if len(disk) == 3:
+                        orders.append([disk[1], disk[2], disk[0]])
+                    for o in orders:
+                        steps.append({'act': 'stack', 'src': o[0],
+                                      'others': o[1:],
+                                      'args': {'dim': d, 'via': via}})
+                    progs.append({'templates': [t], 'steps': steps})
+    if tier == 'quick':
+        progs = rnd.sample(progs, min(len(progs), 40))
+    return progs
+
+
 def zipped_selections(rnd, tier):
     """C02: equal-length index lists on every pair / triple of dimensions
     (adjacent or not, leading axis or not), with repeats and negative indices,
@@ -219,6 +276,7 @@ def run(prop, tier, extra=None):
                                     templates=tpl))
     if prop == 'C04':
         progs += hetero_stacks(rnd, tier)
+        progs += mfopen_stacks(rnd, tier)
     if prop == 'C03':
         progs += multidim_applies(rnd, tier)
         progs += stringform_applies(rnd, tier)
